@@ -650,7 +650,7 @@ def create_aliases(nd: AstNode, num_occurrences: dict[str, int]) -> dict[str, in
     if isinstance(nd, verbs.Verb):
         num_occurrences = create_aliases(nd.child, num_occurrences)
 
-        if isinstance(nd, verbs.Join):
+        if isinstance(nd, verbs.Join | verbs.Union):
             num_occurrences = create_aliases(nd.right, num_occurrences)
 
     elif isinstance(nd, TableImpl):
